@@ -175,6 +175,7 @@ def definitions(seed, thorough):
     fixed = [
         dict(kind="struct", name="FxSingle", shape="tuple", fields=[f("u32")], transparent=False),          # single-field forwarder
         dict(kind="struct", name="FxSingleSk", shape="named", fields=[f("u8", "skip"), f("u64", "compact"), f("u16", "skip")], transparent=False),
+        dict(kind="struct", name="FxSingleSk2", shape="named", fields=[f("u32"), f("u64", "skip")], transparent=False),            # forwarder next to a skipped field that occupies memory
         dict(kind="struct", name="FxAllSk", shape="named", fields=[f("u8", "skip"), f("u16", "skip")], transparent=False),
         dict(kind="struct", name="FxTr", shape="tuple", fields=[f("u32")], transparent=True),
         dict(kind="struct", name="FxTrC", shape="tuple", fields=[f("u64", "compact")], transparent=True),
@@ -292,7 +293,7 @@ def run(g, cfg, pid, tier, seed, work, problems):
         T += render(d) + [""]
     nonempty = [d for d in defs if not (d["kind"] == "enum" and not [v for v in d["variants"] if not v["skip"]])]
     names = [d["name"] for d in nonempty]
-    extra = ["Box<FxTr>", "[FxTr; 2]", "Box<FxTrC>", "[FxTrC; 3]", "Vec<FxSingle>", "Option<FxSkipMid>", "Vec<%s>" % names[0], "Box<%s>" % names[1]]
+    extra = ["Vec<FxSingleSk2>", "[FxSingleSk2; 3]", "Box<FxTr>", "[FxTr; 2]", "Box<FxTrC>", "[FxTrC; 3]", "Vec<FxSingle>", "Option<FxSkipMid>", "Vec<%s>" % names[0], "Box<%s>" % names[1]]
     T.append("macro_rules! for_gen_types { ($f:ident, $cx:expr) => { $( $f::<$t>($cx, stringify!($t)); )* }; }")
     T[-1] = "macro_rules! for_gen_types { ($f:ident, $cx:expr) => { %s }; }" % " ".join("$f::<%s>($cx, \"%s\");" % (n, n) for n in names + extra)
     T.append("pub(crate) use for_gen_types;")
